@@ -43,6 +43,11 @@ def run_c12(ctx):
     if "InvReply" not in asf["violated"]:
         raise C.ToolError("vacuity gate: the as-found model (ExtMarker = FALSE) no longer violates InvReply")
     ctx.mc_runs[-1]["note"] = "mutation self-test: expected violation of InvReply found"
+    # ... and init() that only ever switches behaviour on must violate the second-session invariant
+    stk = C.tlc_mc(ctx, "FuseInit", cfg="MC_FuseInit_sticky.cfg", workers=4, timeout=900, coverage=False, must_cover=False, expect_violation=True)
+    if "InvSecondSwitches" not in stk["violated"]:
+        raise C.ToolError("vacuity gate: the as-found model (StickySw = TRUE) no longer violates InvSecondSwitches")
+    ctx.mc_runs[-1]["note"] = "mutation self-test: expected violation of InvSecondSwitches found"
     # conformance
     stride = 5 if ctx.quick else 1
     trace = ctx.path("init.ndjson")
@@ -76,11 +81,16 @@ def run_c12(ctx):
         elif r.get("e") == "Init" and r["k"]["stack"] == "pt" and r["r"]["status"] == "ok" and not r["t"]["no_open"] and k == 1:
             r["t"]["no_open"] = True
             k = 2
+        elif r.get("e") == "Init" and r["k"]["stack"] in ("pt", "vfs_pt") and r["r"]["status"] == "ok" and r["k"]["major"] == "eq" \
+                and "WRITEBACK_CACHE" not in r["second"]["r"]["flags"] + r["r"]["flags"] \
+                and not r["second"]["t"]["writeback"] and "writeback" not in r["second"]["t"]["na"] + r["t"]["na"] and k == 2:
+            r["second"]["t"]["writeback"] = True
+            k = 3
     bf = ctx.path("corrupt.ndjson")
     C.write_ndjson(bf, bad)
     bres = C.tlc_trace(ctx, "Trace_Init", bf)
     sigs = sorted({v[0] for v in viols_of(bres["output"])})
-    if len(sigs) < 1:
+    if len(sigs) < 1 or (k == 3 and not any("|second" in x for x in sigs)):
         raise C.ToolError("binding demo failed: corrupted INIT trace accepted")
     sw = {}
     for e in evs:
@@ -91,7 +101,7 @@ def run_c12(ctx):
         "rule": "case universe of FuseInit.tla (%d cases: stack x major x minor class x offered capability subsets x extended payload x filesystem answer / configuration switches), every %d-th replayed on the real stacks; each case is distinct" % (n, stride),
         "cases_in_universe": n,
         "switch_observations": {"%s/%s/%s" % k: v for k, v in sorted(sw.items())},
-        "binding_demo": [{"corruption": "drop one enabled bit from a decoded reply; claim no_open on without negotiation", "rejected_with": sigs}],
+        "binding_demo": [{"corruption": "drop one enabled bit from a decoded reply; claim no_open on without negotiation; claim writeback on after the second session", "rejected_with": sigs}],
     })
     for e in evs[:1] + [x for x in evs if x["k"]["stack"] == "vfs_pt" and x["k"]["ext"]][:1]:
         ctx.sample({"case": e["k"], "reply": e["r"], "want_seen": e["want"], "switches": e["t"], "second_init": e["second"]})
